@@ -5,18 +5,32 @@
 (* bad arguments are replies, never undefined).  cmd is the argument vector *)
 (* exactly as sent: a sequence of byte strings, cmd[1] the command name.    *)
 (***************************************************************************)
-EXTENDS Lists, Sets
+EXTENDS Keyspace, Sets, Hashes
 
-Names == {"LPUSH", "RPUSH", "LPUSHX", "RPUSHX", "LPOP", "RPOP", "LLEN", "LINDEX", "LRANGE", "LSET",
-          "LINSERT", "LREM", "LTRIM", "LPOS", "LMOVE", "RPOPLPUSH", "LMPOP",
-          "SADD", "SREM", "SCARD", "SISMEMBER", "SMISMEMBER", "SMEMBERS", "SMOVE", "SRANDMEMBER",
-          "SINTER", "SUNION", "SDIFF", "SINTERSTORE", "SUNIONSTORE", "SDIFFSTORE", "SINTERCARD"}
+DataNames ==
+    {"LPUSH", "RPUSH", "LPUSHX", "RPUSHX", "LPOP", "RPOP", "LLEN", "LINDEX", "LRANGE", "LSET",
+     "LINSERT", "LREM", "LTRIM", "LPOS", "LMOVE", "RPOPLPUSH", "LMPOP",
+     "SADD", "SREM", "SCARD", "SISMEMBER", "SMISMEMBER", "SMEMBERS", "SMOVE", "SRANDMEMBER",
+     "SINTER", "SUNION", "SDIFF", "SINTERSTORE", "SUNIONSTORE", "SDIFFSTORE", "SINTERCARD",
+     "HSET", "HMSET", "HSETNX", "HGET", "HMGET", "HGETALL", "HKEYS", "HVALS", "HLEN", "HEXISTS",
+     "HSTRLEN", "HDEL", "HINCRBY", "HINCRBYFLOAT", "HRANDFIELD",
+     "SET", "SETNX", "SETEX", "PSETEX", "GET", "GETSET", "GETDEL", "GETEX", "MGET", "MSET", "MSETNX",
+     "APPEND", "STRLEN", "GETRANGE", "SUBSTR", "SETRANGE", "INCR", "DECR", "INCRBY", "DECRBY",
+     "INCRBYFLOAT", "LCS",
+     "DEL", "UNLINK", "EXISTS", "TOUCH", "TYPE", "RENAME", "RENAMENX", "COPY", "KEYS", "RANDOMKEY",
+     "EXPIRE", "PEXPIRE", "EXPIREAT", "PEXPIREAT", "PERSIST", "TTL", "PTTL", "EXPIRETIME", "PEXPIRETIME",
+     "SORT"}
 
+\* commands handled at the server level (sessions, databases, transactions), see Server.tla
+ServerNames == {"SELECT", "FLUSHDB", "FLUSHALL", "DBSIZE", "PING", "ECHO", "MULTI", "EXEC", "DISCARD",
+                "WATCH", "UNWATCH", "HELLO", "QUIT"}
+
+Names == DataNames \cup ServerNames
 NameOf == [b \in {B(s) : s \in Names} |-> CHOOSE s \in Names : B(s) = b]
-CmdName(cmd) == LET u == Upper(cmd[1]) IN IF u \in DOMAIN NameOf THEN NameOf[u] ELSE "?"
+CmdName(cmd) == IF cmd = <<>> THEN "?" ELSE LET u == Upper(cmd[1]) IN IF u \in DOMAIN NameOf THEN NameOf[u] ELSE "?"
 
-\* d : live view of the database
-ExecLive(d, now, cmd) ==
+\* raw : the stored database, d : its live view
+ExecLive(raw, d, now, cmd) ==
     LET nm == CmdName(cmd)
         a == Tail(cmd)
     IN  CASE nm = "LPUSH" -> Push(d, a, TRUE, FALSE)
@@ -51,10 +65,73 @@ ExecLive(d, now, cmd) ==
           [] nm = "SUNIONSTORE" -> SAlgStore("union", d, a)
           [] nm = "SDIFFSTORE" -> SAlgStore("diff", d, a)
           [] nm = "SINTERCARD" -> SInterCard(d, a)
+          [] nm = "HSET" -> HSet(d, a, FALSE)
+          [] nm = "HMSET" -> HSet(d, a, TRUE)
+          [] nm = "HSETNX" -> HSetNx(d, a)
+          [] nm = "HGET" -> HGet(d, a)
+          [] nm = "HMGET" -> HMGet(d, a)
+          [] nm = "HGETALL" -> HRead(d, a, "all")
+          [] nm = "HKEYS" -> HRead(d, a, "keys")
+          [] nm = "HVALS" -> HRead(d, a, "vals")
+          [] nm = "HLEN" -> HRead(d, a, "len")
+          [] nm = "HEXISTS" -> HExists(d, a)
+          [] nm = "HSTRLEN" -> HStrLen(d, a)
+          [] nm = "HDEL" -> HDel(d, a)
+          [] nm = "HINCRBY" -> HIncrBy(d, a)
+          [] nm = "HINCRBYFLOAT" -> HIncrByFloat(d, a)
+          [] nm = "HRANDFIELD" -> HRandField(d, a)
+          [] nm = "SET" -> Set(d, now, a)
+          [] nm = "SETNX" -> SetNx(d, now, a, cmd[1] = B("setnx"))
+          [] nm = "SETEX" -> SetEx(d, now, a, 1000)
+          [] nm = "PSETEX" -> SetEx(d, now, a, 1)
+          [] nm = "GET" -> Get(d, a)
+          [] nm = "GETSET" -> GetSet(d, a)
+          [] nm = "GETDEL" -> GetDel(d, a)
+          [] nm = "GETEX" -> GetEx(d, now, a)
+          [] nm = "MGET" -> MGet(d, a)
+          [] nm = "MSET" -> MSet(d, a)
+          [] nm = "MSETNX" -> MSetNx(d, a, cmd[1] = B("msetnx"))
+          [] nm = "APPEND" -> AppendCmd(d, a)
+          [] nm = "STRLEN" -> StrLen(d, a)
+          [] nm = "GETRANGE" -> GetRange(d, a)
+          [] nm = "SUBSTR" -> GetRange(d, a)
+          [] nm = "SETRANGE" -> SetRange(d, a)
+          [] nm = "INCR" -> Incr(d, a, 1)
+          [] nm = "DECR" -> Incr(d, a, -1)
+          [] nm = "INCRBY" -> IncrByCmd(d, a, 1)
+          [] nm = "DECRBY" -> IncrByCmd(d, a, -1)
+          [] nm = "INCRBYFLOAT" -> IncrByFloat(d, a)
+          [] nm = "LCS" -> Lcs(d, a)
+          [] nm = "DEL" -> Del_(d, a)
+          [] nm = "UNLINK" -> Unlink(d, a)
+          [] nm = "EXISTS" -> Exists(d, a)
+          [] nm = "TOUCH" -> Touch(d, a)
+          [] nm = "TYPE" -> Type(d, a)
+          [] nm = "RENAME" -> Rename(raw, d, now, a, FALSE)
+          [] nm = "RENAMENX" -> Rename(raw, d, now, a, TRUE)
+          [] nm = "COPY" -> Copy(raw, d, now, a)
+          [] nm = "KEYS" -> KeysCmd(d, a)
+          [] nm = "RANDOMKEY" -> RandomKey(raw, d, now, a)
+          [] nm = "EXPIRE" -> ExpireGeneric(d, now, a, "s")
+          [] nm = "PEXPIRE" -> ExpireGeneric(d, now, a, "ms")
+          [] nm = "EXPIREAT" -> ExpireGeneric(d, now, a, "ats")
+          [] nm = "PEXPIREAT" -> ExpireGeneric(d, now, a, "atms")
+          [] nm = "PERSIST" -> Persist(d, a)
+          [] nm = "TTL" -> Ttl(d, now, a, "s")
+          [] nm = "PTTL" -> Ttl(d, now, a, "ms")
+          [] nm = "EXPIRETIME" -> ExpireTime(d, a, "s")
+          [] nm = "PEXPIRETIME" -> ExpireTime(d, a, "ms")
+          [] nm = "SORT" -> Sort(d, a)
           [] OTHER -> Fail(d, RErr("ERR"))      \* unknown command
 
+\* stored-but-expired entries the command did not touch stay stored (they are invisible)
+KeepExpired(raw, now, d2) ==
+    [k \in DOMAIN d2 \cup {x \in DOMAIN raw : ~IsLive(raw[x], now)} |-> IF k \in DOMAIN d2 THEN d2[k] ELSE raw[k]]
+
 Exec1(db, now, cmd) ==
-    IF cmd = <<>> THEN Fail(Live(db, now), RErr("ERR"))
-    ELSE ExecLive(Live(db, now), now, cmd)
+    LET res == ExecLive(db, Live(db, now), now, cmd)
+    IN  [res EXCEPT !.db = KeepExpired(db, now, res.db)]
+
+IsDataCmd(cmd) == CmdName(cmd) \in DataNames
 
 =============================================================================
